@@ -35,6 +35,12 @@ def gen(rng, tier, quarantine=()):
     universe = rng.sample(names, rng.choice([1, 2, 2, 3]))
     if "no-namesake" not in quarantine and rng.random() < 0.3:
         universe = ["meth", "K.meth"] + universe[:1]
+    nested_pair = False
+    if ("inner" in universe or "mk" in universe) and rng.random() < 0.7:
+        # a nested function together with the function enclosing it: probing the outer
+        # one recompiles the inner one's code as a constant of each variant
+        universe = ["inner", "mk"] + [u for u in universe if u not in ("inner", "mk")][:1]
+        nested_pair = True
     ops = []
     if rng.random() < 0.3:
         ops.append({"op": "clock", "mode": "slow"})
@@ -44,9 +50,9 @@ def gen(rng, tier, quarantine=()):
         if q not in universe:
             universe.append(q)
         ops.append({"op": "tool", "fn": q, "how": "inplace"})
-    nprobes = rng.randint(1, 4)
+    nprobes = rng.randint(3, 5) if nested_pair else rng.randint(1, 4)
     for i in range(nprobes):
-        q = rng.choice(universe)
+        q = rng.choice(universe[:2] * 2 + universe[2:]) if nested_pair else rng.choice(universe)
         call, local, path = FN[q]
         lv = {"fn": q, "caps": [], "sibs": []}
         if rng.random() < 0.5:
